@@ -90,10 +90,18 @@ SeqAlpha(r, L) == LET m == M(r) IN
       op \in {0, 1, 2, 3, 8, 9, 10, 11}, fin \in BOOLEAN }
 
 \* ------------------------------------------------------------ "header": the full product of the header fields
+\* A compressed message is a DEFLATE stream with its last four octets removed (RFC 7692 7.2.1): one octet (the empty
+\* message) or at least six. A frame that starts a compressed message gets a length from which every completion is
+\* such a stream (what a receiver does with other octets is inflation, not framing: not judged).
+ZFix(f) ==
+  IF pmd /\ Rsv1(f) /\ f.op \in {1, 2} /\ f.len.big = "no" /\ f.len.val < 6 /\ ~(f.fin /\ f.len.val = 1)
+  THEN [f EXCEPT !.len = Lengths(6 + f.len.val)] ELSE f
+\* the reserved bits: the full product for single frames where the limit does not matter, one bit at a time otherwise
+RsvSet(L) == IF L = 0 /\ MaxFrames = 1 THEN 0..7 ELSE {0, 1, 2, 4}
 HeaderAlpha(r, L) ==
-  { Fr(op, fin, rsv, mk, l) : op \in {0, 1, 2, 3, 8, 9, 10, 11}, fin \in BOOLEAN, rsv \in {0, 1, 2, 4}, mk \in BOOLEAN,
+  { Fr(op, fin, rsv, mk, l) : op \in {0, 1, 2, 3, 8, 9, 10, 11}, fin \in BOOLEAN, rsv \in RsvSet(L), mk \in BOOLEAN,
                               l \in {Lengths(0), Lengths(1), Lengths(126), BigLen("p63m1"), BigLen("p63"), BigLen("p64m1")} }
-  \ { Fr(8, fin, rsv, mk, Lengths(1)) : fin \in BOOLEAN, rsv \in {0, 1, 2, 4}, mk \in BOOLEAN }   \* no 1-byte close bodies
+  \ { Fr(8, fin, rsv, mk, Lengths(1)) : fin \in BOOLEAN, rsv \in 0..7, mk \in BOOLEAN }   \* no 1-byte close bodies
 CloseBodies(r) ==
   { CloseFr(TRUE, 0, M(r), c, rs) : c \in ValidCodes \cup InvalidCodes,
                                    rs \in {<<>>, Ascii, Utf8Two, BadByte, BadTrunc, BadOverlong, BadSurrogate, BadRange, BadCont, LongAscii, BadLong} }
@@ -132,6 +140,22 @@ BufMc(r, L) == LET m == M(r) IN
   { Fr(1, TRUE, 0, m, Lengths(v)) : v \in {0, 15, 126} } \cup
   { Fr(2, FALSE, 0, m, Lengths(1)), Fr(0, TRUE, 0, m, Lengths(64)), Fr(0, FALSE, 0, m, Lengths(2)),
     Fr(9, TRUE, 0, m, Lengths(126)), Fr(9, FALSE, 0, m, Lengths(2)), Fr(1, TRUE, 4, m, Lengths(5)) }
+
+\* ------------------------------------------------------------ "pmd": sequences with and without permessage-deflate
+\* compressed and uncompressed messages, whole and fragmented, with control frames in between; RSV1 where RFC 7692
+\* allows it and where it does not (control frames, continuation frames), RSV1 together with RSV2 / RSV3, RSV2 / RSV3
+\* alone; message sizes on the wire around the limit. The same frames are sent without the extension negotiated.
+PmdAlpha(r, L) == LET m == M(r)  B == IF L > 6 THEN L ELSE 20 IN
+  { Fr(1, TRUE, 4, m, Lengths(1)), Fr(1, TRUE, 4, m, Lengths(B)), Fr(2, TRUE, 4, m, Lengths(B + 1)),
+    Fr(2, FALSE, 4, m, Lengths(10)), Fr(1, TRUE, 0, m, Lengths(5)), Fr(2, FALSE, 0, m, Lengths(3)),
+    Fr(0, TRUE, 0, m, Lengths(7)), Fr(0, FALSE, 0, m, Lengths(2)), Fr(0, TRUE, 0, m, Lengths(B - 9)),
+    Fr(9, TRUE, 0, m, Lengths(3)), Fr(10, TRUE, 0, m, Lengths(0)), CloseFr(TRUE, 0, m, 1000, <<>>),
+    \* RSV1 where no extension gives it a meaning
+    Fr(0, TRUE, 4, m, Lengths(7)), Fr(0, FALSE, 4, m, Lengths(2)), Fr(9, TRUE, 4, m, Lengths(3)), Fr(10, TRUE, 4, m, Lengths(0)),
+    CloseFr(TRUE, 4, m, 1000, <<>>),
+    \* RSV2 / RSV3, alone and next to RSV1
+    Fr(1, TRUE, 6, m, Lengths(12)), Fr(2, TRUE, 5, m, Lengths(12)), Fr(1, FALSE, 7, m, Lengths(12)), Fr(1, TRUE, 2, m, Lengths(12)),
+    Fr(2, TRUE, 1, m, Lengths(12)), Fr(9, TRUE, 6, m, Lengths(3)), Fr(9, TRUE, 1, m, Lengths(3)), Fr(0, TRUE, 5, m, Lengths(7)) }
 
 \* model checking, deeper, thinned
 McDeep(r, L) == Framing(r) \cup (IF L > 0 THEN LimAlpha(r, L) ELSE {})
